@@ -371,6 +371,40 @@ func c05Case(c *Ctx, r gen.R, mt msgType, zero bool, caseNo int64, zone, phase s
 	if caseNo%6007 == 0 {
 		c.Res.Sample(map[string]any{"type": mt.t.Name(), "zone": zone, "bytes": wk.Hex(enc), "decoded": fmt.Sprint(after)})
 	}
+	// decoding into a variable that already holds another message of the type (an application reusing one struct): the
+	// result is the new message, nothing of the old one survives
+	if r.Pick(3) == 0 {
+		prevV := reflect.New(mt.t).Elem()
+		fill(r, prevV, rm.Vals{}, false)
+		if prevEnc, perr := codec.Marshal(prevV.Interface()); perr == nil {
+			w := reflect.New(mt.t)
+			var derr error
+			func() {
+				defer func() {
+					if p := recover(); p != nil {
+						derr = fmt.Errorf("panic: %v", p)
+					}
+				}()
+				if derr = codec.Unmarshal(prevEnc, w.Interface()); derr == nil {
+					derr = codec.Unmarshal(enc, w.Interface())
+				}
+			}()
+			c.Res.Eval(1)
+			if derr != nil {
+				c.Res.Violate("C05:"+mt.t.Name()+":decode-into-used-variable", fmt.Sprintf("%s: decoding into a variable that already held another message failed: %v", mt.t.Name(), derr), map[string]any{"zone": zone, "phase": phase, "bytes": wk.Hex(enc)}, caseNo)
+			} else {
+				m := map[string]string{}
+				canon(w.Elem(), m)
+				for k, b := range before {
+					if m[k] != b {
+						c.Res.Violate("C05:"+mt.t.Name()+":decode-into-used-variable:"+k, fmt.Sprintf("%s.%s: decoding the encoding of %s into a variable that already held another message yields %s (zone %s)", mt.t.Name(), k, b, m[k], zone),
+							map[string]any{"zone": zone, "phase": phase, "type": mt.t.Name(), "field": k, "before": b, "after": m[k], "bytes": wk.Hex(enc), "previous": wk.Hex(prevEnc)}, caseNo)
+						break
+					}
+				}
+			}
+		}
+	}
 	// bytes that belong to no field must not matter
 	if mt.layout != nil {
 		cov := mt.layout.Covered()
